@@ -2,6 +2,7 @@ import QR.Proofs.Penalty
 import QR.Proofs.SourceTieC08
 import QR.Proofs.Pinned
 import QR.Proofs.SourceTieT3
+import QR.Proofs.SourceTieD3
 /-
 C08 - the penalty score the library uses to rank masks equals the ISO 18004 definition, for EVERY square matrix
 (any side n ≥ 1, not only QR sizes).  Model.lostPoint mirrors util.lost_point with its histogram, `next(iter)` skipping
@@ -95,6 +96,60 @@ theorem C08_source_lostPointLevel4_src (M : BMat) (n : Nat) :
   QR.SourceTieT.lostPointLevel4_src M n
 
 end SourceTieT2b
+
+/-! ### Source tie, part 3 (T2 plugin `tools/t2_fragments/frag_d3.py`): `_lost_point_level3` with its two loops and iterator
+    skipping, and `lost_point` as a whole. Restated verbatim from `QR/Proofs/SourceTieD3.lean`. -/
+section SourceTieD3
+open QR.Model QR.Gen QR.Gen.Code QR.SourceTieT QR.SourceTieD3
+
+/-- the translated body of the ROW pass of `util._lost_point_level3` (`for col in modules_range_short_iter`, reading
+    `this_row[col + k]` = `modules[row][col + k]`) is the Model's window test `cond3`, weight 40 and Horspool skip (`stepSpec`) -/
+theorem C08_source_row_step_src (m : Nat → Nat → Bool) (row col lost : Nat) :
+    l3f_row_step m row col lost = stepSpec (fun c => m row c) col lost :=
+  QR.SourceTieD3.row_step_src m row col lost
+
+/-- the translated body of the COLUMN pass of `util._lost_point_level3` (`for row in modules_range_short_iter`, reading
+    `modules[row + k][col]`) is the Model's window test `cond3`, weight 40 and Horspool skip (`stepSpec`) -/
+theorem C08_source_col_step_src (m : Nat → Nat → Bool) (col row lost : Nat) :
+    l3f_col_step m col row lost = stepSpec (fun r => m r col) row lost :=
+  QR.SourceTieD3.col_step_src m col row lost
+
+/-- the literals of the translation of `util._lost_point_level3`: `range(modules_count)`, `range(modules_count - 10)`,
+    `lost_point = 0`, the dead stores `col = 0` / `row = 0`, order and kind of the statements before each inner loop -/
+theorem C08_source_level3_literals :
+    (∀ n, l3f_range0_stop n = (n : Int)) ∧ (∀ n, l3f_range1_stop n = (n : Int) - 10) ∧ l3f_init = 0 ∧
+    l3f_row_dead_init = 0 ∧ l3f_col_dead_init = 0 ∧
+    l3f_row_prologue = ["alias this_row", "iter modules_range_short_iter", "init col"] ∧
+    l3f_col_prologue = ["iter modules_range_short_iter", "init row"] :=
+  QR.SourceTieD3.level3_literals
+
+/-- **`util._lost_point_level3`, complete** = `Model.level3`: on every `n × n` matrix (every `n ≥ 0`) the Model's list
+    recursion `l3scan` over all rows and columns equals the translated source (both passes, `iter(range(n - 10))`, the
+    translated bodies, `next(it, None)` as one more advance of the iterator position) -/
+theorem C08_source_lostPointLevel3_src (M : BMat) (n : Nat) (hlen : M.length = n) (hrow : ∀ row ∈ M, row.length = n) :
+    level3 M n = l3f_level3 (lp_cell M) n :=
+  QR.SourceTieD3.lostPointLevel3_src M n hlen hrow
+
+/-- both inner loops of `util._lost_point_level3` (`for col/row in modules_range_short_iter` with `next(it, None)` inside)
+    terminate, and the fuel the translated `l3f_level3` runs them with gives the result of the fuel-free semantics `IterFor` -/
+theorem C08_source_inner_loops_terminate (m : Nat → Nat → Bool) (o stop lost : Nat) :
+    IterFor stop (l3f_row_step m o) 0 lost (l3f_iter_run stop (l3f_row_step m o) stop 0 lost) ∧
+    IterFor stop (l3f_col_step m o) 0 lost (l3f_iter_run stop (l3f_col_step m o) stop 0 lost) :=
+  QR.SourceTieD3.inner_loops_terminate m o stop lost
+
+/-- the callees of `util.lost_point`, in call order -/
+theorem C08_source_lost_point_literals : l3f_lost_point_callees =
+    ["_lost_point_level1", "_lost_point_level2", "_lost_point_level3", "_lost_point_level4"] :=
+  QR.SourceTieD3.lost_point_literals
+
+/-- **`util.lost_point`** = `Model.lostPoint`: the translated function (`len(modules)`, the four calls and their sum, in
+    statement order) applied to the four TRANSLATED scanners, for every square matrix -/
+theorem C08_source_lost_point_src (M : BMat) (hrow : ∀ row ∈ M, row.length = M.length) :
+    lostPoint M = l3f_lost_point List.length level1Src level2Src (fun M n => l3f_level3 (lp_cell M) n)
+      (fun M n => (lp4_result (lp4_dark_count M) n).toNat) M :=
+  QR.SourceTieD3.lost_point_src M hrow
+
+end SourceTieD3
 
 /-- the Python functions this property's model mirrors have, in /repo's current working tree, exactly the normalised
     ASTs the model was written and validated against (fingerprints regenerated by T1 on every run) -/
